@@ -91,9 +91,10 @@ def run_case(case):
         if oc == "ok":
             alt = cs.snapshot(net)
             bad = cs.compare(snap, alt, c["alg"])
-            if bad and c["init"] == "flat" and facts and facts["shift"] and cs.low_voltage_solution(snap, alt):
-                # flat start is > 90 degrees away from the solution behind a phase shifting transformer: Newton
-                # converges to the other (low-voltage) root of the same equations - a valid solution, not a defect
+            if bad and c["init"] == "flat" and facts and facts["shift"] and cs.other_valid_root(ref, net):
+                # flat start is > 90 degrees away from the solution behind a phase shifting transformer (documented caveat of
+                # init="flat"): Newton converges to another exact root of the SAME equations (checked with the reference's
+                # own Ybus/Sbus) - low-voltage branch or flipped angle at a PV bus; two valid solutions, not a defect
                 count("other_valid_solution_flat_start_phase_shift")
                 continue
             out["sig"].append("%s|%s" % (nh, cs.cfg_name(c)))
